@@ -44,14 +44,23 @@ impl<'n> TryFromNode<'n> for Field {
         target_namespace.clone_from(&doc.current_target_namespace);
 
         let is_attribute = node.tag_name().name() == "attribute";
-        let parent_is_optional = node.parent().and_then(|n| n.attribute("minOccurs")) == Some("0");
+        // the enclosing model groups (nested sequences and choices) up to the type definition
+        let groups = || {
+            node.ancestors()
+                .skip(1)
+                .take_while(|n| matches!(n.tag_name().name(), "sequence" | "choice" | "all"))
+        };
+        // a member is optional when it, or a group around it, may be absent, and when it is one branch of a choice
+        let parent_is_optional =
+            groups().any(|n| n.attribute("minOccurs") == Some("0") || n.tag_name().name() == "choice");
         let is_optional = if is_attribute {
             node.attribute("use") != Some("required")
         } else {
             node.attribute("minOccurs") == Some("0") || parent_is_optional
         };
-        let parent_is_vec = node.parent().and_then(|n| n.attribute("maxOccurs")) == Some("unbounded");
-        let is_vec = Node::attribute(&node, "maxOccurs") == Some("unbounded") || parent_is_vec;
+        // it repeats when it, or a group around it, may occur more than once (`unbounded` or a number above 1)
+        let parent_is_vec = groups().any(|n| may_repeat(n.attribute("maxOccurs")));
+        let is_vec = may_repeat(Node::attribute(&node, "maxOccurs")) || parent_is_vec;
         let is_choice = node.parent().is_some_and(|n| n.tag_name().name() == "choice");
 
         // check if this is an any type
@@ -249,6 +258,14 @@ impl Display for RustFieldType {
                 }
             }
         }
+    }
+}
+
+fn may_repeat(max_occurs: Option<&str>) -> bool {
+    match max_occurs {
+        Some("unbounded") => true,
+        Some(n) => n.parse::<u64>().is_ok_and(|n| n > 1),
+        None => false,
     }
 }
 
